@@ -1,5 +1,6 @@
 (* C05 — Incremental input: any split of the bytes into writes decodes identically. *)
-From QCo.Lemmas Require Import Tactics ReaderL.
+From QCo.Lemmas Require Import Tactics ReaderL FileL IterL SplitL.
+From QCo.Model Require Import Writer.
 From QCo.Model Require Import Base Consts DType Codec Reader.
 Open Scope N_scope.
 
@@ -25,3 +26,31 @@ Proof. exact free_transparent_run. Qed.
 (* every state reached from a fresh decompressor satisfies the position invariant used above *)
 Theorem C05_reachable_pos_ok : forall d ops, pos_ok (fst (r_run d r_init ops)).
 Proof. exact reachable_pos_ok. Qed.
+
+(* The full statement: however the bytes of a file (any file the writer model emits) are cut
+   into successive writes — cuts inside the magic header, the flags, a chunk's metadata, a
+   Huffman code, a run-length count or an offset included — feeding the pieces one at a time
+   and draining the iterator after each piece yields, after merging the adjacent number batches
+   of a chunk (a batch cut short by missing data is completed by the next one), exactly the
+   item sequence obtained when all bytes are written first; nothing fails, the iteration ends
+   terminated, and nothing is lost or duplicated. For every limit >= 1. *)
+Theorem C05_split_invariance : forall d order gcds chunks bytes limit pieces fuel,
+  order <= 7 -> Forall (chunk_ok d (writer_flags order gcds)) chunks ->
+  file_bytes d (writer_flags order gcds) chunks = Ok bytes -> 1 <= limit ->
+  concat pieces = bytes ->
+  (3 + length chunks + length (concat (map fst chunks)) <= fuel)%nat ->
+  let r := feed fuel d limit r_init pieces in
+  merge_nums (snd r) = merge_nums (map ROItem (iter_items d (writer_flags order gcds) limit chunks)) /\
+  r_term (fst r) = true /\ (exists items, snd r = map ROItem items) /\
+  (forall l, r_step d (fst r) (RNext l) = (fst r, RONone)).
+Proof. exact split_invariance. Qed.
+
+Theorem C05_nothing_lost_nothing_duplicated : forall d order gcds chunks bytes limit pieces fuel,
+  order <= 7 ->
+  Forall (chunk_ok d (writer_flags order gcds)) chunks ->
+  file_bytes d (writer_flags order gcds) chunks = Ok bytes ->
+  1 <= limit ->
+  concat pieces = bytes ->
+  (3 + length chunks + length (concat (map fst chunks)) <= fuel)%nat ->
+  flat_map out_nums (snd (feed fuel d limit r_init pieces)) = concat (map fst chunks).
+Proof. exact split_numbers. Qed.
